@@ -67,7 +67,11 @@ ONLY_HEXDIG_RE = re.compile(("^" + HEXDIG + r"+\Z").encode("latin-1"))
 ONLY_DIGIT_RE = re.compile(("^" + DIGIT + r"+\Z").encode("latin-1"))
 HEADER_FIELD_RE = re.compile(
     (
-        "^(?P<name>" + TOKEN + "):" + OWS + "(?P<value>" + FIELD_VALUE + ")" + OWS + r"\Z"
+        # the optional whitespace in front of the value belongs to the optional
+        # value group (callers strip the value anyway): two adjacent runs of
+        # optional whitespace around a possibly empty value backtrack
+        # quadratically on a long run of blanks followed by an invalid byte
+        "^(?P<name>" + TOKEN + "):(?P<value>(?:" + WS + "*" + FIELD_CONTENT + ")?)" + WS + r"*\Z"
     ).encode("latin-1")
 )
 QUOTED_PAIR_RE = re.compile(QUOTED_PAIR)
